@@ -415,6 +415,38 @@ def run(chk):
                                              {'units': units, 'auto': auto, 'pass_class': cls.__name__})
         finally:
             _PASSCLS[0] = None
+    # the decision follows the arrangement the pass is in NOW: a pass taken over into a second sequence while the first is still alive
+    from pyroll.core import PassSequence as _Seq, Rotator as _Rot, BaseRollPass as _BRP
+    for auto in (True, False):
+        seq_a, objs_a = build([P0, ('rotator', 90), P0])
+        moved = objs_a[2]
+        first_pass = build([P0])[1][0]
+        seq_b = _Seq([first_pass, moved])
+        units_b = [P0, P0]
+        try:
+            if not auto:
+                from pyroll.core import Config as _Cfg
+                _Cfg.ROLL_PASS_AUTO_ROTATION = False
+            got, exp = moved.rotation, spec_rotation(units_b, 1, auto)
+        finally:
+            if not auto:
+                del _Cfg.ROLL_PASS_AUTO_ROTATION
+        chk.cov['evaluations'] += 1
+        if got != exp and not chk.failures:
+            chk.fail('rotation', f"a pass behind a rotator in one sequence is put behind a pass in a second sequence (the first still exists, auto={auto}): its rotation is "
+                     f"{got!r}, the arrangement it is in now calls for {exp!r}", {'units': units_b, 'auto': auto, 'case': 'taken over into a second sequence'})
+        del seq_a, seq_b
+    # the package's own decision rules registered once more for the duration of a with block: afterwards the decisions are what they were
+    from pyroll.core.roll_pass.hookimpls.base_roll_pass import detect_already_rotated as _dar
+    probe = [P0, ('rotator', 90), T0, P0, P0]
+    before = observe(probe, True)
+    with _BRP.rotation(_dar):
+        inside = observe(probe, True)
+    after = observe(probe, True)
+    chk.cov['evaluations'] += 3
+    if not (before == inside == after) and not chk.failures:
+        chk.fail('rotation', f"{probe}: rotations {before}; with the package's own rule registered once more by `with BaseRollPass.rotation(detect_already_rotated):` "
+                 f"{inside}; after the block {after}", {'units': probe, 'auto': True, 'case': 'rule registered a second time'})
     chk.cov['distinct_nontrivial'] += len({json.dumps(c, default=str) for c in cases})
     chk.cov['exhaustive_upto_length'] = maxlen
     chk.cov['exhaustive'] = False
